@@ -14,6 +14,7 @@ import (
 	"sync"
 	"sync/atomic"
 	"testing"
+	"time"
 
 	"github.com/tailscale/setec/client/setec"
 	"github.com/tailscale/setec/types/api"
@@ -95,6 +96,8 @@ type hist struct {
 	us      map[string]*setec.Updater[*cval]
 	uname   map[string]string
 	cache   *flakyCache
+	gate    map[string]chan struct{} // builder of updater x blocks here (after logging its call) until closed
+	entered chan string              // a gated builder reports that it has been entered
 }
 
 func tf(b bool) string {
@@ -112,7 +115,7 @@ func (h *hist) note(f string, a ...any) {
 }
 
 func newHist(t *testing.T) *hist {
-	h := &hist{nextID: 1, failing: map[string]bool{}, created: map[string]bool{}, us: map[string]*setec.Updater[*cval]{}, uname: map[string]string{},
+	h := &hist{nextID: 1, failing: map[string]bool{}, created: map[string]bool{}, us: map[string]*setec.Updater[*cval]{}, uname: map[string]string{}, gate: map[string]chan struct{}{}, entered: make(chan string, 8),
 		sv: &svc{ver: map[string]int{}}}
 	for _, n := range names {
 		h.sv.ver[n] = 1
@@ -142,6 +145,13 @@ func (h *hist) builder(x, name string) func([]byte) (*cval, error) {
 		id := h.nextID
 		h.nextID++
 		h.events = append(h.events, Event{"ev": "build", "u": x, "from": ver - 1, "id": id, "ok": "t", "init": tf(init)})
+		if g := h.gate[x]; g != nil {
+			// a slow builder: whatever happens now happens between "the secret was read" and "the value is in place"
+			h.mu.Unlock()
+			h.entered <- x
+			<-g
+			h.mu.Lock()
+		}
 		return &cval{h: h, from: ver - 1, id: id}, nil
 	}
 }
@@ -191,7 +201,9 @@ func (h *hist) get(t, x string, withErr bool) {
 		h.log(Event{"ev": "gend", "t": t, "u": x, "id": -1, "from": -1, "err": e})
 		return
 	}
-	if v.closed.Load() != 0 {
+	if withErr && v.closed.Load() != 0 {
+		// (only when no other Get can run: with concurrent callers a later Get may legitimately have replaced
+		// and closed this value by the time we look; TLC checks CloseOnce on the logged vclose lines instead)
 		h.note("Get of %s returned value %d which has been closed", x, v.id)
 	}
 	h.log(Event{"ev": "gend", "t": t, "u": x, "id": v.id, "from": v.from, "err": e})
@@ -261,6 +273,79 @@ func sequential(t *testing.T, r *rand.Rand, steps int) *hist {
 			if f := h.freeUpds(); len(f) > 0 {
 				h.newUpdater(f[0], names[r.Intn(2)*r.Intn(2)])
 			}
+		}
+	}
+	for _, x := range h.liveUpds() {
+		h.get("t1", x, true)
+	}
+	h.st.Close()
+	return h
+}
+
+func (h *hist) setGate(x string) chan struct{} {
+	g := make(chan struct{})
+	h.mu.Lock()
+	h.gate[x] = g
+	h.mu.Unlock()
+	return g
+}
+func (h *hist) openGate(x string, g chan struct{}) {
+	h.mu.Lock()
+	delete(h.gate, x)
+	h.mu.Unlock()
+	close(g)
+}
+
+// gated: the builder is held open (it is the caller's code, it may be slow) while installs and other Get
+// callers arrive: an updater created while an update is in flight; a Get overtaken by installs and by
+// another Get caller.
+func gated(t *testing.T, r *rand.Rand) *hist {
+	h := newHist(t)
+	h.newUpdater("u1", "a")
+	for round := 0; round < 2+r.Intn(2); round++ {
+		switch r.Intn(3) {
+		case 0: // creation with a slow first build
+			free := h.freeUpds()
+			if len(free) == 0 {
+				continue
+			}
+			x := free[0]
+			g := h.setGate(x)
+			done := make(chan struct{})
+			go func() { h.newUpdater(x, "a"); close(done) }()
+			<-h.entered
+			for k := r.Intn(3); k > 0; k-- {
+				h.install([]string{"a"})
+			}
+			h.openGate(x, g)
+			<-done
+			h.get("t1", x, true)
+		default: // a Get with a slow rebuild, overtaken by installs and a second caller
+			l := h.liveUpds()
+			x := l[r.Intn(len(l))]
+			h.install([]string{h.uname[x]}) // make a rebuild due
+			g := h.setGate(x)
+			d1, d2 := make(chan struct{}), make(chan struct{})
+			go func() { h.get("t1", x, false); close(d1) }()
+			select {
+			case <-h.entered:
+			case <-d1: // no rebuild happened (that is for TLC to judge)
+				h.openGate(x, g)
+				continue
+			}
+			for k := r.Intn(3); k > 0; k-- {
+				h.install([]string{h.uname[x]})
+			}
+			go func() { h.get("t2", x, false); close(d2) }()
+			time.Sleep(3 * time.Millisecond) // the second caller must be waiting for the first; give it time to do otherwise
+			h.openGate(x, g)
+			<-d1
+			select { // the second caller's own rebuild is not gated (the gate is gone)
+			case <-d2:
+			case <-h.entered:
+				<-d2
+			}
+			h.get("t1", x, true)
 		}
 	}
 	for _, x := range h.liveUpds() {
@@ -346,6 +431,8 @@ func TestUpdaterHistories(t *testing.T) {
 			old := runtime.GOMAXPROCS([]int{2, 4, 8, 16}[i%4])
 			h = concurrent(t, r)
 			runtime.GOMAXPROCS(old)
+		} else if mode == 2 {
+			h = gated(t, r)
 		} else {
 			h = sequential(t, r, 25)
 		}
